@@ -6,3 +6,6 @@ cd "$(dirname "$0")"
 export CARGO_NET_OFFLINE=true
 python3 symx/gen.py build
 [ -x lib/warm.sh ] && lib/warm.sh || true
+# translator validation: the repository's own test suite on the symbolic-number cosmwasm-std
+# (cached per source hash; thorough checks re-run it when sources changed)
+python3 lib/overlay_suite.py > .cache/overlay-suite.log 2>&1 || echo "overlay suite: see .cache/overlay-suite.log"
